@@ -11,7 +11,7 @@ import Pog.Lemmas.Http
 
   What is proved about the model `Pog.Model.Http` (= `HttpxTransport._prepare_headers/request`,
   `CompositeAuth`, `BearerAuth`, `HeadersAuth`, `ApiKeyAuth`, `OAuth2Auth`; tied to the code by corr_c17.py).
-  `✗` marks parts of the full statement that are FALSE of the current code.
+  Every part of the full statement holds of the current code (F27a and F27b are repaired).
 
     composition order     : a composite is the left-to-right Kleisli fold of its plug-ins          (full)
     sequential writes     : the headers dict is `{}` merged (`merge_headers`: a write deletes the other
@@ -20,11 +20,13 @@ import Pog.Lemmas.Http
     header precedence     : on the WIRE (case-insensitive names) the last writer wins, one line per name  (full)
                             — F27a repaired: `x-b` default + `X-B` per-request header used to be BOTH sent
     API key, header       : placed under the configured name                                        (full)
-    API key, query/cookie : placed in the configured location                                        ✗
-                            — the key reaches httpx NOWHERE, for every key/name/caller arguments  (total defect)
+    API key, query/cookie : placed in the configured location under the configured name             (full)
+                            — F27b repaired: the key used to reach httpx NOWHERE
     API key, other        : `ValueError`                                                            (full)
     bearer_token          : used iff no auth plug-in is configured                                  (full)
-    passthrough           : params / cookies / every other keyword reach httpx unchanged            (full)
+    passthrough           : every other keyword reaches httpx unchanged; params / cookies are the caller's
+                            (same value, absent stays absent) unless a plug-in places an API key there:
+                            then the caller's entries with the plug-ins' writes applied in order        (full)
     OAuth2 refresh        : the header carries `cb tok` iff it is non-empty and different, else `tok` (full)
 -/
 namespace Pog.C17
@@ -166,8 +168,8 @@ example :
 
 /-! ## API key placement
 
-  ✗ FULL STATEMENT (false): `location = "query"` → the request's params contain `name ↦ key`;
-  `location = "cookie"` → the request's cookies contain `name ↦ key`. -/
+  FULL STATEMENT (holds): `location = "header"` → one header line `name: key`; `location = "query"` → the request's
+  params contain `name ↦ key`; `location = "cookie"` → the request's cookies contain `name ↦ key`. -/
 
 /-- `location="header"`: the request carries `name: key` — in the dict under exactly the configured spelling,
     on the wire as the ONLY line of that name — whatever the defaults and per-request headers. -/
@@ -179,28 +181,78 @@ theorem apikey_header_placed (defaults reqHeaders : Option Dict) (bearer : Optio
   · simp [dictGet_dictUpdateCI, allWrites, authWrites, contrib, lastWriterCI_append, lastWriterCI, ciEq_refl]
   · simp [wireLookup_dictUpdateCI_nil, allWrites, authWrites, contrib, lastWriteCI_append, lastWriteCI, ciEq_refl]
 
-/-- ✗ TOTAL DEFECT.  With `location="query"` or `"cookie"` the key reaches httpx nowhere: for EVERY key, name,
-    default headers, bearer token and caller arguments the keyword arguments of `client.request` are the
-    caller's params, the caller's cookies, and the headers built from defaults and per-request headers
-    alone — identical to what an empty `CompositeAuth()` produces.  (The plug-in writes
-    `request_args["params"|"cookies"]`, the transport gave it `{"headers": …}` only and reads back only
-    `["headers"]`.) -/
-theorem apikey_query_cookie_dropped_counterexample {β : Type} (defaults : Option Dict) (bearer : Option Str)
-    (c : CallerArgs β) (key name loc : Str) (hloc : loc = locQuery ∨ loc = locCookie) :
-    sendArgs { auth := some (.apiKey key loc name), bearerToken := bearer, defaultHeaders := defaults } c
-      = .ok { headers := baseHeaders defaults c.headers, params := c.params, cookies := c.cookies,
-              other := c.other }
-    ∧ sendArgs { auth := some (.apiKey key loc name), bearerToken := bearer, defaultHeaders := defaults } c
-      = sendArgs { auth := some (.composite []), bearerToken := bearer, defaultHeaders := defaults } c := by
-  have hq : locQuery ≠ locHeader := by decide
-  have hc1 : locCookie ≠ locHeader := by decide
-  have hc2 : locCookie ≠ locQuery := by decide
-  rcases hloc with h | h <;> subst h <;>
-    simp [sendArgs, prepareHeaders, authenticate, authenticateAll, hq, hc1, hc2]
+/-- FULL STATEMENT (F27b repaired).  With `location="query"` the params handed to httpx are the caller's params
+    (absent / `None` = `{}`) with `name ↦ key` assigned — an entry of exactly that name is replaced in place,
+    otherwise the key is appended — and reading `name` back yields `key`; the cookies are the caller's and the
+    headers are those built from defaults and per-request headers alone.  With `location="cookie"` the same
+    with params and cookies exchanged.  For EVERY key, name, default headers, bearer token and caller arguments. -/
+theorem apikey_query_cookie_placed {β : Type} (defaults : Option Dict) (bearer : Option Str)
+    (c : CallerArgs β) (key name : Str) :
+    (sendArgs { auth := some (.apiKey key locQuery name), bearerToken := bearer, defaultHeaders := defaults } c
+      = .ok { headers := baseHeaders defaults c.headers, params := some (dictSet (c.params.getD []) name key),
+              cookies := c.cookies, other := c.other }
+      ∧ dictGet (dictSet (c.params.getD []) name key) name = some key)
+    ∧ (sendArgs { auth := some (.apiKey key locCookie name), bearerToken := bearer, defaultHeaders := defaults } c
+      = .ok { headers := baseHeaders defaults c.headers, params := c.params,
+              cookies := some (dictSet (c.cookies.getD []) name key), other := c.other }
+      ∧ dictGet (dictSet (c.cookies.getD []) name key) name = some key) := by
+  refine ⟨⟨?_, by simp [dictGet_dictSet]⟩, ⟨?_, by simp [dictGet_dictSet]⟩⟩
+  · simp [sendArgs, prepareRequest, authenticate, locQuery_ne_locHeader]
+    cases c.cookies <;> rfl
+  · simp [sendArgs, prepareRequest, authenticate, locCookie_ne_locHeader, locCookie_ne_locQuery]
+    cases c.params <;> rfl
 
-/-- The same inside any composite, at any position: removing the query/cookie API-key plug-in does not
-    change the outcome of `_prepare_headers` (value or exception). -/
-theorem apikey_query_cookie_dropped_in_composite (defaults reqHeaders : Option Dict) (bearer : Option Str)
+/-- The same inside any composite, at any position: if no plug-in raises, the request is sent and its params
+    (cookies) hold `name ↦ key`, unless a LATER plug-in of the composite writes the same query (cookie) name — then
+    that later one wins, as composition order demands. -/
+theorem apikey_query_cookie_placed_in_composite {β : Type} (defaults : Option Dict) (bearer : Option Str)
+    (c : CallerArgs β) (pre post : List Plugin) (key name : Str) (hne : firstErrAll (pre ++ post) = none) :
+    (name ∉ dictKeys (contribQAll post) →
+      ∃ s, sendArgs { auth := some (.composite (pre ++ [.apiKey key locQuery name] ++ post)), bearerToken := bearer,
+                      defaultHeaders := defaults } c = .ok s
+        ∧ s.params.bind (fun d => dictGet d name) = some key)
+    ∧ (name ∉ dictKeys (contribCAll post) →
+      ∃ s, sendArgs { auth := some (.composite (pre ++ [.apiKey key locCookie name] ++ post)), bearerToken := bearer,
+                      defaultHeaders := defaults } c = .ok s
+        ∧ s.cookies.bind (fun d => dictGet d name) = some key) := by
+  have hne' := hne
+  rw [firstErrAll_append] at hne'
+  have hpre : firstErrAll pre = none := by
+    cases h : firstErrAll pre with
+    | none => rfl
+    | some e => simp [h] at hne'
+  have hpost : firstErrAll post = none := by simpa [hpre] using hne'
+  have hlw : ∀ (ws : Dict), name ∉ dictKeys ws → lastWrite ws name = none := by
+    intro ws h
+    cases hl : lastWrite ws name with
+    | none => rfl
+    | some v => exact absurd ((lastWrite_isSome_iff ws name).mp (by simp [hl])) h
+  constructor
+  · intro hq
+    rw [sendArgs_spec]
+    have hf : (some (Plugin.composite (pre ++ [.apiKey key locQuery name] ++ post))).bind firstErr = none := by
+      simp [firstErrAll_append, firstErrAll_cons, firstErr, hpre, hpost]
+    simp only [hf]
+    refine ⟨_, rfl, ?_⟩
+    simp [queryWrites, contribQAll_append, contribQAll, contribQ, dictGet_writeInto, lastWrite_append, lastWrite,
+      hlw _ hq]
+  · intro hq
+    rw [sendArgs_spec]
+    have hf : (some (Plugin.composite (pre ++ [.apiKey key locCookie name] ++ post))).bind firstErr = none := by
+      simp [firstErrAll_append, firstErrAll_cons, firstErr, hpre, hpost]
+    simp only [hf]
+    refine ⟨_, rfl, ?_⟩
+    simp [cookieWrites, contribCAll_append, contribCAll, contribC, dictGet_writeInto, lastWrite_append, lastWrite,
+      hlw _ hq]
+
+/-- The hypotheses of `apikey_query_cookie_placed_in_composite` are satisfiable with plug-ins on both sides. -/
+example : firstErrAll ([.bearer "b".toList] ++ [.apiKey "k".toList locQuery "other".toList, .headers []]) = none
+    ∧ "api_key".toList ∉ dictKeys (contribQAll [.apiKey "k".toList locQuery "other".toList, .headers []]) := by
+  decide
+
+/-- A query / cookie API key does not touch the headers: removing that plug-in from a composite, at any
+    position, does not change what `_prepare_headers` returns (headers or exception). -/
+theorem apikey_query_cookie_leaves_headers (defaults reqHeaders : Option Dict) (bearer : Option Str)
     (pre post : List Plugin) (key name loc : Str) (hloc : loc = locQuery ∨ loc = locCookie) :
     prepareHeaders defaults reqHeaders (some (.composite (pre ++ [.apiKey key loc name] ++ post))) bearer
       = prepareHeaders defaults reqHeaders (some (.composite (pre ++ post))) bearer := by
@@ -214,18 +266,27 @@ theorem apikey_query_cookie_dropped_in_composite (defaults reqHeaders : Option D
     contrib_composite, firstErrAll_append, contribAll_append, firstErrAll_cons, contribAll, he, hcn]
   simp [firstErrAll]
 
-/-- Concrete witness on the plain configuration: `ApiKeyAuth("SECRET", "query", "api_key")`, a caller that
-    passes no params: httpx gets no params, no cookies, no headers. -/
-theorem apikey_query_dropped_witness :
-    (match sendArgs { auth := some (.apiKey "SECRET".toList "query".toList "api_key".toList) }
+/-- Former witness of F27b on the plain configuration: `ApiKeyAuth("SECRET", "query", "api_key")`, a caller that
+    passes no params: httpx gets `params={"api_key": "SECRET"}`, no cookies, no headers; with
+    `ApiKeyAuth("SECRET", "cookie", "sid")` it gets `cookies={"sid": "SECRET"}`. -/
+theorem apikey_query_placed_former_witness :
+    ((match sendArgs { auth := some (.apiKey "SECRET".toList "query".toList "api_key".toList) }
         ({ other := () } : CallerArgs Unit) with
-      | .ok s => (s.headers, s.params, s.cookies)
-      | .error _ => ([], some [], some [])) = ([], none, none)
+      | .ok s => s.params
+      | .error _ => none) = some [("api_key".toList, "SECRET".toList)]
+    ∧ (match sendArgs { auth := some (.apiKey "SECRET".toList "query".toList "api_key".toList) }
+        ({ other := () } : CallerArgs Unit) with
+      | .ok s => (s.headers, s.cookies)
+      | .error _ => ([("raised".toList, [])], none)) = ([], none))
+    ∧ ((match sendArgs { auth := some (.apiKey "SECRET".toList "cookie".toList "sid".toList) }
+        ({ other := () } : CallerArgs Unit) with
+      | .ok s => s.cookies
+      | .error _ => none) = some [("sid".toList, "SECRET".toList)]
     ∧ (match sendArgs { auth := some (.apiKey "SECRET".toList "cookie".toList "sid".toList) }
         ({ other := () } : CallerArgs Unit) with
-      | .ok s => (s.headers, s.params, s.cookies)
-      | .error _ => ([], some [], some [])) = ([], none, none) :=
-  ⟨by decide, by decide⟩
+      | .ok s => (s.headers, s.params)
+      | .error _ => ([("raised".toList, [])], none)) = ([], none)) :=
+  ⟨⟨by decide, by decide⟩, ⟨by decide, by decide⟩⟩
 
 /-- Any other `location` string: `ValueError("Invalid API key location: <loc>")` out of
     `_prepare_headers` (hence out of `request`, before httpx is called). -/
@@ -238,7 +299,7 @@ theorem apikey_bad_location_raises {β : Type} (defaults : Option Dict) (bearer 
   have hp : prepareHeaders defaults c.headers (some (.apiKey key loc name)) bearer
       = .error (.valueError (badLocationMsg loc)) := by
     rw [prepareHeaders_spec]; simp [firstErr, h.1, h.2.1, h.2.2]
-  exact ⟨hp, by simp [sendArgs, hp]⟩
+  exact ⟨hp, by rw [sendArgs_spec]; simp [firstErr, h.1, h.2.1, h.2.2]⟩
 
 example : "Header".toList ≠ locHeader ∧ "Header".toList ≠ locQuery ∧ "Header".toList ≠ locCookie := by decide
 
@@ -273,30 +334,60 @@ theorem bearer_token_only_without_auth (defaults reqHeaders : Option Dict) :
         ∧ res = dictSetCI (baseHeaders defaults reqHeaders) hAuthorization (bearerValue t)
         ∧ dictGet res hAuthorization = some (bearerValue t))
     ∧ prepareHeaders defaults reqHeaders none none = .ok (baseHeaders defaults reqHeaders) := by
-  refine ⟨fun p bearer => by simp [prepareHeaders], fun t => ⟨_, by simp [prepareHeaders], rfl, ?_⟩,
-    by simp [prepareHeaders]⟩
+  refine ⟨fun p bearer => by simp [prepareHeaders, prepareRequest],
+    fun t => ⟨_, by simp [prepareHeaders, prepareRequest], rfl, ?_⟩, by simp [prepareHeaders, prepareRequest]⟩
   simp [dictGet_dictSetCI]
 
 /-! ## passthrough -/
 
-/-- Whatever the plug-in configuration: if the request is sent, httpx receives the caller's `params`,
-    `cookies` and every other keyword unchanged; the headers depend on the caller's `headers` only; and the
-    request is sent unless a plug-in raises. -/
+/-- Query / cookie writes come from `ApiKeyAuth(location="query"|"cookie")` only: every other plug-in kind, and the
+    `bearer_token` path, writes none. -/
+theorem query_cookie_writes_only_from_apikey (tok : Str) (cb : Option (Str → Str)) (h : Dict) (key name : Str) :
+    contribQ (.bearer tok) = [] ∧ contribC (.bearer tok) = []
+    ∧ contribQ (.headers h) = [] ∧ contribC (.headers h) = []
+    ∧ contribQ (.oauth2 tok cb) = [] ∧ contribC (.oauth2 tok cb) = []
+    ∧ contribQ (.apiKey key locHeader name) = [] ∧ contribC (.apiKey key locHeader name) = []
+    ∧ contribQ (.apiKey key locCookie name) = [] ∧ contribC (.apiKey key locQuery name) = []
+    ∧ queryWrites none = [] ∧ cookieWrites none = [] := by
+  simp [contribQ, contribC, queryWrites, cookieWrites, locQuery_ne_locHeader.symm, locCookie_ne_locHeader.symm,
+    locCookie_ne_locQuery, locCookie_ne_locQuery.symm]
+
+/-- Whatever the plug-in configuration: if the request is sent, httpx receives every other keyword unchanged;
+    its `params` (`cookies`) are the caller's with the plug-ins' query (cookie) API keys assigned in composition
+    order — so exactly the caller's value (absent stays absent) when no plug-in places a key there, and in any
+    case every caller entry whose name no plug-in writes keeps its value; the headers depend on the caller's
+    `headers` only; and the request is sent unless a plug-in raises. -/
 theorem passthrough {β : Type} (t : Transport) (c : CallerArgs β) :
     (∀ s, sendArgs t c = .ok s →
-        s.params = c.params ∧ s.cookies = c.cookies ∧ s.other = c.other
+        s.other = c.other
+        ∧ s.params = writeInto c.params (queryWrites t.auth)
+        ∧ s.cookies = writeInto c.cookies (cookieWrites t.auth)
+        ∧ (queryWrites t.auth = [] → s.params = c.params)
+        ∧ (cookieWrites t.auth = [] → s.cookies = c.cookies)
+        ∧ (∀ k, k ∉ dictKeys (queryWrites t.auth) →
+            s.params.bind (fun d => dictGet d k) = c.params.bind (fun d => dictGet d k))
+        ∧ (∀ k, k ∉ dictKeys (cookieWrites t.auth) →
+            s.cookies.bind (fun d => dictGet d k) = c.cookies.bind (fun d => dictGet d k))
         ∧ prepareHeaders t.defaultHeaders c.headers t.auth t.bearerToken = .ok s.headers)
     ∧ ((∃ s, sendArgs t c = .ok s) ↔ t.auth.bind firstErr = none) := by
+  have hlw : ∀ (ws : Dict) (k : Str), k ∉ dictKeys ws → lastWrite ws k = none := by
+    intro ws k h
+    cases hl : lastWrite ws k with
+    | none => rfl
+    | some v => exact absurd ((lastWrite_isSome_iff ws k).mp (by simp [hl])) h
   constructor
   · intro s hs
-    unfold sendArgs at hs
-    cases hp : prepareHeaders t.defaultHeaders c.headers t.auth t.bearerToken with
-    | error e => simp [hp] at hs
-    | ok h =>
-      simp only [hp, Except.ok.injEq] at hs
-      subst hs; simp
-  · unfold sendArgs
+    rw [sendArgs_spec] at hs
     rw [prepareHeaders_spec]
+    cases he : t.auth.bind firstErr with
+    | some e => simp [he] at hs
+    | none =>
+      simp only [he, Except.ok.injEq] at hs
+      subst hs
+      refine ⟨rfl, rfl, rfl, fun h => by simp [h], fun h => by simp [h], fun k hk => ?_, fun k hk => ?_, rfl⟩
+      · simp [dictGet_writeInto, hlw _ k hk]
+      · simp [dictGet_writeInto, hlw _ k hk]
+  · rw [sendArgs_spec]
     cases t.auth.bind firstErr <;> simp
 
 /-! ## OAuth2 refresh -/
